@@ -116,6 +116,9 @@ EDITS = {
         ("bp01", "crates/lib/mimium-lang/src/compiler/mirgen.rs", "                        // (same rationale as add_bind_pattern tuple case).\n                        self.insert_clone_recursively(elem_val.clone(), *elem_ty);", "                        // (same rationale as add_bind_pattern tuple case).", "verus", "mirgen_rc"),
         ("bp02", "crates/lib/mimium-lang/src/compiler/mirgen.rs", "                        self.bind_pattern(pat, elem_val, bind_ty);", "                        self.bind_pattern(pat, elem_val, *elem_ty);", "verus", "mirgen_rc"),
         ("bp03", "crates/lib/mimium-lang/src/compiler/mirgen.rs", "                if let Some(inner_pat) = inner {\n                    self.bind_pattern(inner_pat, value, ty);", "                if let Some(inner_pat) = inner {\n                    self.insert_clone_recursively(value.clone(), ty);\n                    self.bind_pattern(inner_pat, value, ty);", "verus", "mirgen_rc"),
+        ("dt01", "crates/lib/mimium-lang/src/compiler/mirgen.rs", "                            self.insert_clone_recursively(elem_val.clone(), elem_types[col_idx]);\n", "", "verus", "mirgen_rc"),
+        ("dt02", "crates/lib/mimium-lang/src/compiler/mirgen.rs", "                            self.insert_clone_recursively(payload.clone(), payload_ty);\n", "", "verus", "mirgen_rc"),
+        ("pb01", "crates/lib/mimium-lang/src/compiler/mirgen.rs", "                    self.insert_clone_recursively(bound_val.clone(), vt);\n", "", "verus", "mirgen_rc"),
         ("lx01", "crates/lib/mimium-lang/src/compiler/mirgen.rs", "                        let value = self.push_inst(Instruction::Load(ptr, ty));\n                        self.insert_release_recursively(value, ty);", "                        let value = self.push_inst(Instruction::Load(ptr, ty));\n                        self.insert_release_recursively(value.clone(), ty);\n                        self.insert_release_recursively(value, ty);", "verus", "mirgen_rc"),
         ("lx02", "crates/lib/mimium-lang/src/compiler/mirgen.rs", "                        let value = self.push_inst(Instruction::Load(ptr, ty));\n                        self.insert_release_recursively(value, ty);", "                        let value = self.push_inst(Instruction::Load(ptr, ty));\n                        self.insert_close_closures_recursively(value.clone(), ty);\n                        self.insert_release_recursively(value, ty);", "verus", "mirgen_rc"),
         ("px01", "crates/lib/mimium-lang/src/compiler/mirgen.rs", "                self.insert_clone_recursively(res.clone(), elem_ty);\n                (res, elem_ty, states)", "                (res, elem_ty, states)", "verus", "mirgen_rc"),
